@@ -15,9 +15,12 @@ import time
 VERIF = os.path.dirname(os.path.dirname(os.path.abspath(__file__)))
 SPEC = os.path.join(VERIF, "spec")
 HARNESS = os.path.join(VERIF, "harness")
-WORK = os.path.join(VERIF, "work")
-EVID = os.path.join(VERIF, "evidence")
-REPLAYS = os.path.join(VERIF, "replays")
+# Scratch evaluation of a patched copy of the repository (bin/try_patch): VERIF_REPO points at the copy,
+# VERIF_WORK at a private work directory (evidence and replays then go there too, never into /verif/evidence).
+ALT_REPO = os.environ.get("VERIF_REPO")
+WORK = os.environ.get("VERIF_WORK") or os.path.join(VERIF, "work")
+EVID = os.path.join(WORK, "evidence") if os.environ.get("VERIF_WORK") else os.path.join(VERIF, "evidence")
+REPLAYS = os.path.join(WORK, "replays") if os.environ.get("VERIF_WORK") else os.path.join(VERIF, "replays")
 NCPU = os.cpu_count() or 4
 TLA_CP = "/opt/veriftools/tla/tla2tools.jar:/opt/veriftools/tla/CommunityModules-deps.jar"
 
@@ -179,8 +182,23 @@ def build_harness(profile="release"):
         return _built[profile]
     env = dict(os.environ, CARGO_NET_OFFLINE="true")
     cmd = ["cargo", "build", "--offline"] + (["--release"] if profile == "release" else [])
-    out, dt = run(cmd, cwd=HARNESS, env=env, timeout=1800, check=False)
-    exe = os.path.join(HARNESS, "target", "release" if profile == "release" else "debug", "vh")
+    hdir = HARNESS
+    if ALT_REPO:
+        # private copy of the harness sources whose path dependency points at the scratch repository
+        hdir = os.path.join(WORK, "harness_alt")
+        os.makedirs(hdir, exist_ok=True)
+        for rel in ("Cargo.toml", "Cargo.lock", ".cargo/config.toml", "src"):
+            src, dst = os.path.join(HARNESS, rel), os.path.join(hdir, rel)
+            if os.path.isdir(src):
+                shutil.rmtree(dst, ignore_errors=True)
+                shutil.copytree(src, dst)
+            else:
+                os.makedirs(os.path.dirname(dst), exist_ok=True)
+                shutil.copy(src, dst)
+        ct = open(os.path.join(hdir, "Cargo.toml")).read().replace('path = "/repo"', 'path = "%s"' % ALT_REPO)
+        open(os.path.join(hdir, "Cargo.toml"), "w").write(ct)
+    out, dt = run(cmd, cwd=hdir, env=env, timeout=1800, check=False)
+    exe = os.path.join(hdir, "target", "release" if profile == "release" else "debug", "vh")
     if not os.path.exists(exe) or "error" in out and "could not compile" in out:
         raise ToolError("harness does not build against /repo:\n" + out[-4000:])
     _built[profile] = exe
